@@ -248,6 +248,24 @@ impl<S: BuildHasher> IndexMap<S> {
 	}
 }
 
+#[cfg(json_syntax_verif)]
+impl<S> IndexMap<S> {
+	/// Verification hook: read-only dump of the table (number of occupied
+	/// buckets, bucket capacity, and `(rep, other)` for each occupied bucket).
+	pub fn verif_dump(&self) -> (usize, usize, Vec<(usize, Vec<usize>)>) {
+		let mut buckets = Vec::with_capacity(self.table.len());
+
+		unsafe {
+			for bucket in self.table.iter() {
+				let indexes = bucket.as_ref();
+				buckets.push((indexes.rep, indexes.other.clone()));
+			}
+		}
+
+		(self.table.len(), self.table.buckets(), buckets)
+	}
+}
+
 #[cfg(test)]
 mod tests {
 	use super::*;
